@@ -30,6 +30,41 @@ def _remainder_checked(f, locs):
             r = A.reach_without_edges(f, 0, edges, A.err_exit_blocks(f))
             if edges and not any(f.term(b)["k"] == "return" for b in r):
                 return True
+    # the same test written as a slice pattern (`(value, []) => ..`): the remainder's length compared with 0
+    for w in range(f.nblocks()):
+        t = f.term(w)
+        if t["k"] != "switch":
+            continue
+        dl = A._opl(t["discr"])
+        for bb, kind, x in f.defs().get(dl, []) if dl is not None else []:
+            if kind != "stmt" or x.get("k") != "binop" or x.get("op") not in ("Eq", "Ne") or len(x.get("o", [])) != 2:
+                continue
+            lens = set()
+            zero = False
+            for o in x["o"]:
+                if "p" in o:
+                    dep, _, consts = f.depends_on(o["p"][0])
+                    for l in dep | {o["p"][0]}:
+                        for b2, k2, y in f.defs().get(l, []):
+                            if k2 == "stmt" and ((y.get("k") == "unop" and y.get("op") == "PtrMetadata") or y.get("k") == "len"):
+                                src = y["o"][0]["p"][0] if y.get("o") and "p" in y["o"][0] else None
+                                if src is not None:
+                                    lens |= _ref_chain(f, src) | set(z for q in _ref_chain(f, src) for b3, k3, yy in f.defs().get(q, [])
+                                                                     if k3 == "stmt" and yy.get("k") == "rawptr" and yy.get("o") and "p" in yy["o"][0]
+                                                                     for z in _ref_chain(f, yy["o"][0]["p"][0]))
+                    if any(isinstance(k, dict) and k.get("int") == 0 for _, k in consts) and not (dep - {o["p"][0]}):
+                        zero = True
+                elif isinstance(o.get("c"), dict) and o["c"].get("int") == 0:
+                    zero = True
+            if not zero or not (lens & locs):
+                continue
+            tg = dict((v, b) for v, b in t["targets"])
+            want = 1 if x["op"] == "Eq" else 0
+            empty_side = tg.get(want, t["otherwise"])
+            edges = {(w, empty_side)}
+            r = A.reach_without_edges(f, 0, edges, A.err_exit_blocks(f))
+            if not any(f.term(b)["k"] == "return" for b in r):
+                return True
     return False
 
 
